@@ -413,9 +413,9 @@ class TypeTransformer:
             data = self._attempt_from_number(data)
             if isinstance(data, str):
                 if data.lower() in self.FALSE_VALUES:
-                    return 0
+                    return t(0)
                 if data.lower() in self.TRUE_VALUES:
-                    return 1
+                    return t(1)
             elif isinstance(data, t):
                 return data
 
